@@ -304,6 +304,9 @@ def run():
             for key, what, wit in bad + bad2:
                 kk = key
                 ck.violation(kk, what, dict(stream=["case", idx], case=desc, detail=wit))
+    if not ck.quick:
+        from tvf.contracts_run import run_suite_with_contracts
+        run_suite_with_contracts(ck, ['systematic_resample'])
     multinomial_counts(ck)
     posterior_resample(ck)
     ck.require_events("systematic_resample driven at a chosen offset", "comb partition cells integrated",
